@@ -158,6 +158,10 @@ def render_verilog(vm, rng, style):
         for n, d, r in vm['ports']:
             rs = '' if r is None else f'[{r[0]}:{r[1]}]{W}'
             stmts.append(f'{"input" if d == "in" else "output"}{W}{rs}{n};')
+    red = style.get('redecl', 'none')          # port nets declared as wire as well, before or after their direction (seed C11-r7mut2: "first declaration wins")
+    if red != 'none':
+        ws_ = [f'wire{W}' + ('' if r is None else f'[{r[0]}:{r[1]}]{W}') + f'{n};' for n, d, r in vm['ports']]
+        stmts = ws_ + stmts if red == 'before' else stmts + ws_
     for n, r in vm['wires']:
         rs = '' if r is None else f'[{r[0]}:{r[1]}]{W}'
         stmts.append(f'wire{W}{rs}{n};')
@@ -199,10 +203,12 @@ def styles(tier, rng):
     S.append(dict(base, attrs=True, comments=True, ws='wide'))
     S.append(dict(base, ws='dense', decl='joined', pinorder='shuffle'))
     for f in 'hdBHD': S.append(dict(base, constfmt=f, comments=(f in 'hB')))
+    S.append(dict(base, redecl='before'))
+    S.append(dict(base, redecl='after', decl='joined'))
     n = 3 if tier == 'quick' else 120
     for _ in range(n):
         S.append(dict(decl=rng.choice(['split', 'joined']), order=rng.choice(['source', 'shuffle']), comments=rng.random() < 0.5, attrs=rng.random() < 0.3,
-                      pinorder=rng.choice(['decl', 'shuffle']), ws=rng.choice(['normal', 'dense', 'wide']), constfmt=rng.choice('bbhdBHD')))
+                      pinorder=rng.choice(['decl', 'shuffle']), ws=rng.choice(['normal', 'dense', 'wide']), constfmt=rng.choice('bbhdBHD'), redecl=rng.choice(['none', 'none', 'before', 'after'])))
     return S
 
 
@@ -424,7 +430,7 @@ def run(tier, seed):
         'obligations': int(rep.counts['obligations']), 'discharged': int(rep.counts['discharged']), 'rendered_texts': int(rep.counts['texts']),
         'explanation': 'per rendered text: real parser + resolve, one symbolic run of the real LogicSim, z3 equality of every output port (by position) and state element with the ground-truth function for all stimuli',
         'functions_encoded': common.fn_sha(verilog.VerilogTransformer.module, verilog.VerilogTransformer.sigsel, verilog.VerilogTransformer.concat, verilog.VerilogTransformer.range, bench.BenchTransformer, techlib.TechLib.pin_index),
-        'bounds': {'verilog models': list(VMODELS), 'styles per model': 9 if tier == 'quick' else 26, 'branchforks': [False, True], 'bench/verilog pairs': 12 if tier == 'quick' else 120},
+        'bounds': {'verilog models': list(VMODELS), 'styles per model': len(styles(tier, random.Random(0))), 'port nets also declared as wire': ['not', 'before the direction', 'after the direction'], 'branchforks': [False, True], 'bench/verilog pairs': 12 if tier == 'quick' else 120},
         'exhaustive': False,
         'summary': f'{rep.counts["texts"]} texts, {rep.counts["obligations"]} obligations, {rep.counts["discharged"]} discharged',
     }
